@@ -796,6 +796,12 @@ func (st *c03State) classifyCallFact(s mapSite, f regionFact, addS func(token.Po
 		idiom("I3 delete")
 		return
 	}
+	if f.Kind == "store" && !f.Elem && st.storeIsRestoredOnReturn(f) {
+		// `previous := g.x; g.x = …; defer func() { g.x = previous }()`: the field holds the new value for the time
+		// of the call only — after each iteration it is what it was before
+		idiom("scoped state restored by a deferred store (in callee)")
+		return
+	}
 	if f.Kind == "store" && f.Counter {
 		// x++ / x-- in a callee: the value after the loop does not depend on the order of the iterations —
 		// as long as nothing but the test of a budget (an error exit: the run fails whatever the order) reads it
@@ -1526,4 +1532,69 @@ func c03AnchorsUnique(ctx *Ctx, r *Report) {
 	})
 	r.Check(checked, "order/anchors-unique", "jsonschema.GenerateAST hands the document to the parser", fd.Pos(), "after refusing a document in which an anchor is declared twice",
 		"GenerateAST compiles the document as it is: `\"thing\": {\"$ref\": \"#thing\"}` with `$defs/Apple` and `$defs/Banana` both declaring `\"$anchor\": \"thing\"` is resolved by the library in the order of a Go map — over 120 identical runs, 80 generated Apple and 40 Banana: types_gen.go has two different contents")
+}
+
+// storeIsRestoredOnReturn: the store (in a callee) assigns a field whose previous value was saved in a local variable
+// just before, and a deferred function literal of the same function assigns that variable back to the field.
+func (st *c03State) storeIsRestoredOnReturn(f regionFact) bool {
+	fin := f.Final()
+	if fin == nil || !f.Origin.IsValid() {
+		return false
+	}
+	for _, p := range st.ctx.Pkgs {
+		info := p.TypesInfo
+		for _, file := range p.Syntax {
+			if f.Origin < file.Pos() || f.Origin > file.End() {
+				continue
+			}
+			for _, d := range file.Decls {
+				fd, ok := d.(*ast.FuncDecl)
+				if !ok || fd.Body == nil || f.Origin < fd.Pos() || f.Origin > fd.End() {
+					continue
+				}
+				// saved: `previous := recv.F` before the store
+				saved := map[types.Object]bool{}
+				ast.Inspect(fd.Body, func(n ast.Node) bool {
+					as, ok := n.(*ast.AssignStmt)
+					if !ok || as.Pos() >= f.Origin || len(as.Lhs) != 1 || len(as.Rhs) != 1 {
+						return true
+					}
+					if sel, ok := ast.Unparen(as.Rhs[0]).(*ast.SelectorExpr); ok && fieldOf(info, sel) == fin {
+						if id, ok := as.Lhs[0].(*ast.Ident); ok {
+							saved[objOf(info, id)] = true
+						}
+					}
+					return true
+				})
+				restored := false
+				ast.Inspect(fd.Body, func(n ast.Node) bool {
+					ds, ok := n.(*ast.DeferStmt)
+					if !ok {
+						return true
+					}
+					fl, ok := ast.Unparen(ds.Call.Fun).(*ast.FuncLit)
+					if !ok {
+						return true
+					}
+					ast.Inspect(fl.Body, func(k ast.Node) bool {
+						as, ok := k.(*ast.AssignStmt)
+						if !ok || len(as.Lhs) != 1 || len(as.Rhs) != 1 {
+							return true
+						}
+						sel, ok := ast.Unparen(as.Lhs[0]).(*ast.SelectorExpr)
+						if !ok || fieldOf(info, sel) != fin {
+							return true
+						}
+						if id, ok := ast.Unparen(as.Rhs[0]).(*ast.Ident); ok && saved[objOf(info, id)] {
+							restored = true
+						}
+						return true
+					})
+					return true
+				})
+				return restored
+			}
+		}
+	}
+	return false
 }
